@@ -169,6 +169,8 @@ func (tr *Trace) snapshot() []Ev {
 func causalOrder(evs []Ev) []Ev {
 	prio := func(e Ev) int {
 		switch e.K {
+		case "close>":
+			return -1 // opens its segment (see the barrier below)
 		case "inj":
 			return 0
 		case "dlv":
@@ -176,13 +178,34 @@ func causalOrder(evs []Ev) []Ev {
 		}
 		return 2
 	}
-	out := append([]Ev{}, evs...)
-	sort.SliceStable(out, func(i, j int) bool {
-		if out[i].T != out[j].T {
-			return out[i].T < out[j].T
+	// A Close call is a barrier: once it has begun, frames may be taken from the socket by Close itself
+	// (it lets the receiver finish by draining it), not by the connection server - such deliveries must
+	// not be moved ahead of the Close that caused them.
+	type keyed struct {
+		e   Ev
+		seg int
+	}
+	ks := make([]keyed, len(evs))
+	seg := 0
+	for i, e := range evs {
+		if e.K == "close>" {
+			seg++
 		}
-		return prio(out[i]) < prio(out[j])
+		ks[i] = keyed{e, seg}
+	}
+	sort.SliceStable(ks, func(i, j int) bool {
+		if ks[i].e.T != ks[j].e.T {
+			return ks[i].e.T < ks[j].e.T
+		}
+		if ks[i].seg != ks[j].seg {
+			return ks[i].seg < ks[j].seg
+		}
+		return prio(ks[i].e) < prio(ks[j].e)
 	})
+	out := make([]Ev, len(ks))
+	for i := range ks {
+		out[i] = ks[i].e
+	}
 	return out
 }
 
@@ -643,6 +666,7 @@ type Result struct {
 	FinalDrainUs  int64
 	CloseHung     bool // the cleanup Close did not return within the limit
 	DrainTimedOut bool // Inbound() did not close within the limit after Close
+	ReceiverStuck bool // after Close the socket's receiver stayed blocked handing over a frame nobody reads
 }
 
 // Run executes the plan. It must be called inside the bubble when s.Bubble is set.
@@ -761,6 +785,12 @@ func (s *Sim) Run() *Result {
 	}
 	lanes.Wait()
 	time.Sleep(us(p.TailUs))
+	if s.Bubble {
+		// settle: whatever the last lane event set in motion at this very instant completes before the
+		// cleanup begins (the fake clock only advances once every goroutine is blocked), so that the
+		// cleanup Close never shares an instant with a delivery
+		time.Sleep(time.Microsecond)
+	}
 	if p.DrainUs > 0 && drainDone == nil && !res.InboundClosed {
 		deadline := time.Now().Add(s.Limit)
 		for {
@@ -824,16 +854,35 @@ func (s *Sim) Run() *Result {
 		}
 	}
 	res.FinalDrainUs = int64(time.Since(t0) / time.Microsecond)
-	s.finish()
+	res.ReceiverStuck = !s.finish()
 	res.Events = s.Tr.snapshot()
 	return res
 }
 
-func (s *Sim) finish() {
+// finish stops the harness side. It reports whether the socket's receiver (the pump) could end: a
+// receiver still blocked handing a frame to a client that no longer reads is a leaked goroutine.
+func (s *Sim) finish() (receiverEnded bool) {
 	s.mu.Lock()
 	s.stopped = true
 	s.mu.Unlock()
 	s.Sock.Close()
-	<-s.Sock.PumpDone()
+	lim := 2 * time.Second
+	if s.Bubble {
+		lim = time.Hour
+	}
+	tm := time.NewTimer(lim)
+	defer tm.Stop()
+	select {
+	case <-s.Sock.PumpDone():
+		receiverEnded = true
+	case <-tm.C:
+		// release it so that the harness itself leaves nothing behind
+		go func() {
+			for range s.Sock.Inbound() {
+			}
+		}()
+		<-s.Sock.PumpDone()
+	}
 	s.timers.Wait()
+	return receiverEnded
 }
